@@ -39,7 +39,13 @@ CONSTANTS Backend,    \* "TBB" | "OpenMP" | "Internal" | "Debug"
           Froms,      \* issuing thread: "init-thread" (the one that initialised) | "second-thread"
           Shapes,     \* "flat" | "nested"
           RSet,       \* query results tried where the contract leaves them open (bounded instances)
-          DSet        \* loop summaries tried (bounded instances)
+          DSet,       \* loop summaries tried (bounded instances)
+          HW,         \* hardware threads of the machine (sizes loops while no positive count is in force)
+          InitOpts,   \* boundary instances: Init arguments as records [n, from, fz]
+          BurstOpts,  \*   bursts of re-initialisations [cnt, n, cyc]
+          LoopOpts,   \*   loop variants [from, shape, size, api]
+          LBurstOpts, \*   bursts of loops [from, cnt]
+          PairOpts    \*   two simultaneous loops [from, shape, size, api]
 
 VARIABLES inited, limit, reinit, last
 vars == <<inited, limit, reinit, last>>
@@ -82,11 +88,27 @@ Cls(from) == "from=" \o from \o ",cfg=" \o Cfg
 Init == /\ inited = FALSE /\ limit = 0 /\ reinit = FALSE
         /\ last = [a |-> "Start", arg |-> <<>>, cls |-> "", exp |-> [r |-> 0]]
 
-InitSys(n) ==
-  /\ inited' = TRUE
-  /\ limit'  = IF n > 0 THEN n ELSE 0
-  /\ reinit' = inited
-  /\ last'   = [a |-> "Init", arg |-> [n |-> n], cls |-> IF n > 0 THEN "n>0" ELSE "n<=0", exp |-> [void |-> TRUE]]
+\* the effect of one initTaskingSystem(n) on <<inited, limit, reinit>>
+AfterInit(st, n) == <<TRUE, IF n > 0 THEN n ELSE 0, st[1]>>
+
+\* Init: `arg` carries n and, optionally, what the statement does not distinguish (the issuing thread `from`, the
+\* flushDenormals flag `fz`): the effect depends on n only
+InitWith(arg) ==
+  LET st == AfterInit(<<inited, limit, reinit>>, arg.n) IN
+  /\ inited' = st[1] /\ limit' = st[2] /\ reinit' = st[3]
+  /\ last'   = [a |-> "Init", arg |-> arg, cls |-> IF arg.n > 0 THEN "n>0" ELSE "n<=0", exp |-> [void |-> TRUE]]
+InitSys(n) == InitWith([n |-> n])
+
+\* Macro action: cnt >= 1 initialisations in a row without an observation in between; the i-th argument is given by a
+\* formula (the cycle `cyc`, the last one is n), so that 256 or 65536 re-initialisations are one step for TLC.
+\* TaskingInitMC checks that it is the same as cnt single Init steps.
+BurstArg(b, i) == IF i = b.cnt THEN b.n ELSE b.cyc[((i - 1) % Len(b.cyc)) + 1]
+BurstEffect(st, b) == <<TRUE, IF b.n > 0 THEN b.n ELSE 0, st[1] \/ b.cnt >= 2>>
+InitBurst(b) ==
+  LET st == BurstEffect(<<inited, limit, reinit>>, b) IN
+  /\ b.cnt >= 1
+  /\ inited' = st[1] /\ limit' = st[2] /\ reinit' = st[3]
+  /\ last'   = [a |-> "InitBurst", arg |-> b, cls |-> IF b.n > 0 THEN "n>0" ELSE "n<=0", exp |-> [void |-> TRUE]]
 
 Query(from, r) ==
   /\ QueryOK(r)
@@ -94,17 +116,56 @@ Query(from, r) ==
   /\ last' = [a |-> "Query", arg |-> [from |-> from], cls |-> Cls(from),
               exp |-> IF Exact THEN [r |-> r] ELSE [r_ge |-> 1]]
 
-Loop(from, shape, d) ==
+\* Loop-like actions (name: "Loop" | "LoopBurst"): `arg` carries the issuing thread and whatever describes the loop
+\* (shape, size class, number of tasks k, index type / API, number of loops of a burst); the contract looks at d only.
+\* The recording of a burst of loops is the concatenation of the loops' recordings (every loop ends with nobody inside,
+\* so the concatenation is well formed and its peak is the largest peak - law ConcatLaw of TaskingInitMC).
+LoopLike(name, arg, d) ==
   /\ WellFormed(d)
   /\ LoopOK(d)
   /\ UNCHANGED <<inited, limit, reinit>>
-  /\ last' = [a |-> "Loop", arg |-> [from |-> from, shape |-> shape], cls |-> Cls(from),
+  /\ last' = [a |-> name, arg |-> arg, cls |-> Cls(arg.from),
               exp |-> IF limit > 0 THEN [peak_le |-> Cap(limit)] ELSE [peak_le |-> "unconstrained"]]
+LoopWith(arg, d)     == LoopLike("Loop", arg, d)
+Loop(from, shape, d) == LoopWith([from |-> from, shape |-> shape], d)
+
+\* Two parallel_for calls issued at the same time by two threads: the statement speaks about a parallel_for and its
+\* body, so each CALL is bounded by the count (how many threads the two calls occupy together is not stated)
+LoopPair(arg, d1, d2) ==
+  /\ WellFormed(d1) /\ WellFormed(d2)
+  /\ LoopOK(d1) /\ LoopOK(d2)
+  /\ UNCHANGED <<inited, limit, reinit>>
+  /\ last' = [a |-> "LoopPair", arg |-> arg, cls |-> Cls(arg.from),
+              exp |-> IF limit > 0 THEN [peak_le |-> Cap(limit)] ELSE [peak_le |-> "unconstrained"]]
+
+\* Number of tasks of a loop as a function of its size class and of the count in force (HW while none is): the
+\* classes sit at the boundaries of the statement's "all loop sizes" - no task, one, fewer than / exactly as many as /
+\* one more than the count, several rounds, beyond typical internal block sizes.  Narrow index types cap k.
+LoopBase == IF limit > 0 THEN limit ELSE HW
+SizeK(size) == CASE size = "zero"  -> 0
+                 [] size = "one"   -> 1
+                 [] size = "below" -> IF LoopBase > 1 THEN LoopBase - 1 ELSE 0
+                 [] size = "equal" -> LoopBase
+                 [] size = "above" -> LoopBase + 1
+                 [] size = "x4"    -> 4 * LoopBase
+                 [] size = "x4p1"  -> 4 * LoopBase + 1
+                 [] size = "b1025" -> 1025
+                 [] size = "b4097" -> 4097
+                 [] size = "b65537" -> 65537
+ApiCap(api) == IF api = "for:u8" THEN 255 ELSE IF api = "for:short" THEN 32767 ELSE 2147483647
+WithK(o) == [k |-> Min2(SizeK(o.size), ApiCap(o.api)), outer |-> Min2(LoopBase + 1, 12)] @@ o
+BurstK(o) == [k |-> LoopBase + 1] @@ o
 
 Next ==
   \/ \E n \in Ns : InitSys(n)
   \/ \E f \in Froms, r \in RSet : Query(f, r)
   \/ \E f \in Froms, s \in Shapes, d \in DSet : Loop(f, s, d)
+  \* the richer alphabet of the boundary instances (empty sets elsewhere)
+  \/ \E o \in InitOpts : InitWith(o)
+  \/ \E b \in BurstOpts : InitBurst(b)
+  \/ \E o \in LoopOpts, d \in DSet : LoopWith(WithK(o), d)
+  \/ \E o \in LBurstOpts, d \in DSet : LoopLike("LoopBurst", BurstK(o), d)
+  \/ \E o \in PairOpts, d \in DSet : LoopPair(WithK(o), d, d)
 
 Spec == Init /\ [][Next]_vars
 
